@@ -78,7 +78,8 @@ func NewMuxer(ctx context.Context, w io.Writer, opts ...func(*Muxer)) *Muxer {
 		packetSize:             MpegTsPacketSize, // no 192-byte packet support yet
 		tablesRetransmitPeriod: 40,
 
-		pm: newProgramMap(),
+		pm:      newProgramMap(),
+		nextPID: startPID,
 		pmt: PMTData{
 			ElementaryStreams: []*PMTElementaryStream{},
 			ProgramNumber:     programNumberStart,
@@ -120,6 +121,10 @@ func (m *Muxer) AddElementaryStream(es PMTElementaryStream) error {
 			}
 		}
 	} else {
+		// Skip PIDs that are already in use
+		for m.esContexts[uint32(m.nextPID)] != nil || m.nextPID == pmtStartPID {
+			m.nextPID++
+		}
 		es.ElementaryPID = m.nextPID
 		m.nextPID++
 	}
